@@ -21,6 +21,8 @@ Tables (input flags -> output):
                                      [SessionCache.__init__, prepare_connection_for_query_execution, flush, commit]
   optRows   (immediate, ddl, serializable, optimistic) -> (db_session.immediate, db_session.optimistic), decorator = context manager
                                      [DBSessionContextManager.__init__]
+  findRows  (matches, exists)     -> (found, rbit of the criterion attribute) for get(pk, a=v) / exists(pk, a=v) answered from the cache
+                                     [EntityMeta._find_in_cache_]
   markRowsT (w, vol, rOther)      -> (rbit of a, rbit of another attribute) after `_set_rbits((obj,), {a})`   [EntityMeta._set_rbits]
 The introspection runs in a subprocess with PYTHONPATH=<repo>.
 """
@@ -46,7 +48,7 @@ def introspect():
     with db_session:
         db.execute("insert into P (id, z, p, q, fl, fo, io) values (1, 1, 3, 3, 1.5, 1.5, 3)")
         db.execute("insert into P (id, z, p, q, fl, fo, io) values (2, 1, NULL, NULL, 1.5, 1.5, 3)")
-    out = {'get': [], 'set': [], 'dbset': [], 'save': [], 'crit': [], 'exempt': [], 'mark': [], 'sess': [], 'opts': [], 'errors': []}
+    out = {'get': [], 'set': [], 'dbset': [], 'save': [], 'crit': [], 'exempt': [], 'mark': [], 'sess': [], 'opts': [], 'find': [], 'errors': []}
 
     def bit(a): return P._bits_[a]
 
@@ -157,6 +159,16 @@ def introspect():
                     rollback()
         with db_session(optimistic=so):
             db.execute("update P set z = 1 where id = 1")
+    # keyword lookups answered from the identity map [_find_one_ -> _find_in_cache_]: get(pk, a=v) / exists(pk, a=v), criterion matching or not
+    for match in B:
+        for ex in B:
+            with db_session:
+                obj = P[1]; a = P.p
+                obj._rbits_ = 0
+                val = 3 if match else 999
+                r = P.exists(id=1, p=val) if ex else (P.get(id=1, p=val) is not None)
+                out['find'].append([[match, ex], [bool(r), bool(obj._rbits_ & bit(a))]])
+                rollback()
     # the options of db_session, every combination, as context manager and as decorator: the flags the session runs with
     from pony.orm import core as _core
     for imm in B:
@@ -210,6 +222,8 @@ def render(f):
     L.append('def sessRows : List ((Bool × Bool × Bool) × (Bool × Bool × Bool × Nat) × (Bool × Bool × Bool × Nat)) := [' + ', '.join('((%s, %s, %s), (%s, %s, %s, %d), (%s, %s, %s, %d))' % (lb(k[0]), lb(k[1]), lb(k[2]), lb(v[0]), lb(v[1]), lb(v[2]), v[3], lb(v[4]), lb(v[5]), lb(v[6]), v[7]) for k, v in f['sess']) + ']')
     L.append('/-- db_session(immediate, ddl, serializable, optimistic) ↦ (db_session.immediate, db_session.optimistic); same for the decorator and the context-manager form -/')
     L.append('def optRows : List ((Bool × Bool × Bool × Bool) × (Bool × Bool)) := [' + ', '.join('((%s, %s, %s, %s), (%s, %s))' % (lb(k[0]), lb(k[1]), lb(k[2]), lb(k[3]), lb(v[0]), lb(v[1])) for k, v in f['opts']) + ']')
+    L.append('/-- (criterion matches, exists() instead of get()) ↦ (found, read bit of the criterion attribute) for a lookup answered from the identity map -/')
+    L.append('def findRows : List ((Bool × Bool) × (Bool × Bool)) := [' + ', '.join('((%s, %s), (%s, %s))' % (lb(k[0]), lb(k[1]), lb(v[0]), lb(v[1])) for k, v in f['find']) + ']')
     L += ['', 'end PonyVerif.Gen.OccTable', '']
     return '\n'.join(L)
 
